@@ -304,9 +304,24 @@ def write_evidence(pid, ev):
         json.dump(ev, fh, indent=1, sort_keys=True)
 
 
+def sweep_worker_scratch(max_age_s=90 * 60):
+    """Worker processes keep their per-process scratch directory (/dev/shm/verif-<group>-*) until they
+    exit and do not remove it themselves; drop the ones no running check can still be using."""
+    now = time.time()
+    for d in glob.glob("/dev/shm/verif-*-*"):
+        if os.path.basename(d).startswith("verif-build"):
+            continue
+        try:
+            if now - os.path.getmtime(d) > max_age_s:
+                shutil.rmtree(d, ignore_errors=True)
+        except OSError:
+            pass
+
+
 def check(pid, tier, seed, replay=None):
     if pid not in PROPS:
         die2("unknown property " + pid)
+    sweep_worker_scratch()
     spec = PROPS[pid]
     t_start = time.time()
     key = tree_hash()
